@@ -364,6 +364,10 @@ def classify(res, rundir):
         return "fail", fails, ""
     if res.get("fuzz_unconfirmed"):
         return "infra", [], res["fuzz_unconfirmed"]
+    jp = os.path.join(faildir, "journal-%s.json" % res["name"])
+    if os.path.exists(jp) and re.search(r"^(panic:|fatal error:)", out, re.M) and "panic: test timed out" not in out:
+        # the process died inside a journalled case (this includes the runtime giving up on memory the case asked for)
+        return "crash", [], ""
     if res["rc"] == -999 or "panic: test timed out" in out:
         return "infra", [], "time budget exhausted"
     if "cannot allocate memory" in out or "out of memory" in out.lower() and "fatal error: runtime: out of memory" in out:
@@ -483,6 +487,7 @@ def main():
             for sh in range(tiered(u.get("shards", 1), tier)):
                 jobs.append((u, sh))
     results = []
+    tries = 5 if replay else 1  # a schedule-dependent failure may need several runs to show again
     # weight: units may declare how many cores one shard uses
     maxpar = max(1, NCPU)
     with ThreadPoolExecutor(max_workers=maxpar) as ex:
@@ -495,6 +500,11 @@ def main():
             futs.append(ex.submit(run_shard, u, u["_bin"], sh, rseed, tier, rundir, env2, replay))
         for f in futs:
             results.append(f.result())
+    for attempt in range(1, tries):
+        if any(r["rc"] != 0 for r in results):
+            break
+        log("replay attempt %d passed, trying again" % attempt)
+        results = [run_shard(u, u["_bin"], sh, seed, tier, rundir, dict(extra_env), replay) for u, sh in jobs]
 
     violations = []
     other_prop_hits = []
